@@ -17,11 +17,14 @@ LEVEL = "exploration"
 RULE = (
     "Hypothesis draws directories of 1-3 pages (sub-directories; C01 page generator: items with and without "
     "ZID, leading YYYY-MM-DD dates, irregular gaps after the prefix / priority, multi-line items, H1-H4 "
-    "sections, inherited header metadata), a frozen day and 0-3 follow-up commands (`db create` / `db reindex`). "
+    "sections, inherited header metadata), a frozen day, optionally per-date ZID counters already advanced to "
+    "interesting chain positions (look-alike skips, carries, 2->3 extension) and 0-3 follow-up commands (`db create` "
+    "/ `db reindex`); 1 case in 25 is repeated with every command in a real fresh process and must give "
+    "byte-identical files and the same index. "
     "Oracle: (1) byte-level file diff model: every line equals the original except first lines of items that "
-    "lacked a ZID, which must read prefix[ Pn] + new ZID + original rest (minus a leading long date), the ZID "
+    "lacked a ZID, which must read prefix[ Pn][ written YYMMDD] + new ZID + original rest (minus a leading long date), the ZID "
     "carrying that item's creation date; (2) every item has a ZID afterwards, all distinct; (3) recompiling each "
-    "file gives exactly the raw index rows: page, line, section path, block, position, ZID, kind, priority, body, "
+    "file gives exactly the raw index rows: page, line, section path, partition into blocks, ZID, kind, priority, body, "
     "dates, tags, links, properties; (4) each follow-up command leaves all file bytes and the dump unchanged.  "
     "Non-trivial = directory with >= 1 item without and >= 1 with ZID and one of {irregular spacing, long-date "
     "item, multi-line item without ZID, sub-directory}; distinct by SHA-1 of the case."
